@@ -222,19 +222,26 @@ def validate_trace(module, cfg, scratch, trace_path, shards=1, timeout=900, env=
                 distinct=sum(r["distinct"] for r, _ in results))
 
 
-def apalache(module, inv, scratch, timeout=900):
-    """Discharge `Init => inv` over unbounded integers with Apalache (length 0). Returns True on NoError;
-    a counterexample or a tool problem is a ToolError (the lemma is about the specification, not the code)."""
-    out_dir = Path(scratch) / f"apalache_{module}"
+def apalache(module, inv, scratch, timeout=900, init="Init", next_="Next", length=0, expect_violation=False):
+    """Discharge `init => inv` (length 0) or `init /\\ next => inv'` (length 1) over unbounded integers with
+    Apalache.  Returns True on NoError; a counterexample or a tool problem is a ToolError (the lemma is about the
+    specification, not the code).  With expect_violation the roles are swapped: the (defective) design must be
+    refuted, which shows that the lemma is not vacuous."""
+    out_dir = Path(scratch) / f"apalache_{module}_{init}_{next_}_{inv}_{length}"
     t0 = time.time()
     try:
-        p = subprocess.run(["apalache-mc", "check", "--init=Init", "--next=Next", f"--inv={inv}", "--length=0",
+        p = subprocess.run(["apalache-mc", "check", f"--init={init}", f"--next={next_}", f"--inv={inv}", f"--length={length}",
                             f"--out-dir={out_dir}", f"{module}.tla"], cwd=SPEC, timeout=timeout,
                            stdout=subprocess.PIPE, stderr=subprocess.STDOUT, text=True)
     except subprocess.TimeoutExpired:
         raise ToolError(f"apalache timed out on {module}")
     shutil.rmtree(out_dir, ignore_errors=True)
-    log(f"[apalache] {module} {inv} -> rc={p.returncode} {time.time()-t0:.1f}s")
+    log(f"[apalache] {module} {init}/{next_}/{inv}/{length} -> rc={p.returncode} {time.time()-t0:.1f}s")
+    if expect_violation:
+        if "The outcome is: Error" not in p.stdout or "violat" not in p.stdout:
+            log(p.stdout[-3000:])
+            raise ToolError(f"apalache did not refute {inv} of {module} under {next_}")
+        return True
     if "The outcome is: NoError" not in p.stdout:
         log(p.stdout[-3000:])
         raise ToolError(f"apalache did not discharge {inv} of {module}")
